@@ -473,18 +473,52 @@ fn call_code(c: &SdCall) -> u8 {
 
 /// C13: one fault (or a small set) injected into a C12-style sequence.
 pub fn run_c13(c: &SdCase, acc: &mut Acc) -> Result<(), Failure> {
+    run_faulted(c, acc, false)
+}
+
+/// C14 on sequences with an injected fault ("calls after errors"): the protocol monitor judges the
+/// healthy prefix and everything the driver sends after the card has been power-cycled; what it
+/// sends while the card misbehaves is not judged (there is no single correct reaction), and C13's
+/// own verdicts are not reported here.
+pub fn run_c14_after_fault(c: &SdCase, acc: &mut Acc) -> Result<(), Failure> {
+    match run_faulted(c, acc, true) {
+        Err(f) if f.sig.starts_with("C14/") => Err(f),
+        Err(_) => {
+            acc.class("c14-after-fault:run-ended-by-a-C13-verdict");
+            Ok(())
+        }
+        Ok(()) => Ok(()),
+    }
+}
+
+fn run_faulted(c: &SdCase, acc: &mut Acc, monitor: bool) -> Result<(), Failure> {
     // slow-to-initialise cards belong to C12/C14; here the card is healthy until the fault
     let mut timing = c.timing.clone();
     timing.init_polls = timing.init_polls.min(6);
     let card = SimCard::new(c.kind, timing, c.cap.clone(), c.bg_seed, c.faults.clone());
-    card.0.borrow_mut().monitor_on = false;
+    card.0.borrow_mut().monitor_on = monitor;
     let delay = NoDelay(Rc::new(std::cell::Cell::new(0)));
     let sd: Drv = SdCard::new_with_options(card.clone(), delay, AcquireOpts { use_crc: c.use_crc, acquire_retries: c.acquire_retries.max(1) as u32 + c.timing.cmd0_ignored as u32 });
     let blocks_cap = card.0.borrow().blocks;
     let mut written: Vec<u32> = Vec::new();
     let mut fault_seen = false;
     let mut after_success = false;
+    let mut calls_after_recovery = 0u32;
     for (i, call) in c.calls.iter().enumerate() {
+        if monitor {
+            // verdict of the monitor on everything up to the previous call
+            if let Some(v) = card.0.borrow().viol.first() {
+                return Err(fail(
+                    "C14",
+                    if fault_seen { "protocol-violation-after-error" } else { "protocol-violation" },
+                    format!("{} (before call {} {:?}; card {:?}, crc {}, fault {:?}{})", v, i, call, c.kind, c.use_crc, c.faults, if fault_seen { ", card power-cycled after the faulted call" } else { ", not yet fired" }),
+                ));
+            }
+            if fault_seen {
+                calls_after_recovery += 1;
+            }
+        }
+        let viol_before = card.0.borrow().viol.len();
         let fired_before = card.0.borrow().fault_fired;
         let inits_before = card.0.borrow().inits_completed;
         let reads_before = card.0.borrow().reads_sent;
@@ -565,6 +599,8 @@ pub fn run_c13(c: &SdCase, acc: &mut Acc) -> Result<(), Failure> {
                 && r.is_err()
                 && matches!(f, Fault::DeadFrom { .. } | Fault::SpiError { .. } | Fault::WrongCmd8Echo { .. });
             card.power_cycle();
+            // what the driver sent while the card misbehaved is not judged
+            card.0.borrow_mut().viol.truncate(viol_before);
             if !(init_failure) {
                 sd.mark_card_uninit();
             } else {
@@ -598,6 +634,20 @@ pub fn run_c13(c: &SdCase, acc: &mut Acc) -> Result<(), Failure> {
                 written.push(start + k);
             }
         }
+    }
+    if monitor {
+        if let Some(v) = card.0.borrow().viol.first() {
+            return Err(fail(
+                "C14",
+                if fault_seen { "protocol-violation-after-error" } else { "protocol-violation" },
+                format!("{} (last call; card {:?}, crc {}, fault {:?})", v, c.kind, c.use_crc, c.faults),
+            ));
+        }
+        if fault_seen && calls_after_recovery > 0 {
+            acc.class("c14-after-fault:sequences-with-calls-after-recovery");
+            acc.shape(&("after-fault", c.kind as u8, c.use_crc, fault_name(&c.faults[0]), c.calls.iter().map(call_code).collect::<Vec<u8>>()));
+        }
+        return Ok(());
     }
     if fault_seen {
         acc.shape(&(c.kind as u8, c.use_crc, format!("{:?}", c.faults), c.calls.iter().map(call_code).collect::<Vec<u8>>()));
